@@ -3,6 +3,7 @@ package main
 import (
 	"bytes"
 	"encoding/json"
+	"os"
 	"unicode/utf8"
 )
 
@@ -124,7 +125,7 @@ func randUTF8(r *RNG, maxLen int) []byte {
 }
 
 func runC07(o *Options) *Result {
-	return runEscaperProperty(o, "C07", c07Forms, oracleC07, escPlan{
+	res := runEscaperProperty(o, "C07", c07Forms, oracleC07, escPlan{
 		Singles: true, Pairs: true, PairForms: []string{"j", "q"},
 		RandomQuick: 3000, RandomThorough: 300000, MaxLen: 40, ByteLevel: true, Scalars: true,
 		ScalarForms: []string{"j", "q"},
@@ -154,4 +155,12 @@ func runC07(o *Options) *Result {
 			return b
 		},
 	})
+	if res.InfraError != "" {
+		return res
+	}
+	// everything rendered inside a jsonquote region: interpreter-level correspondence and reference semantics
+	sub := *o
+	sub.WorkDir = o.WorkDir + "/region"
+	_ = os.MkdirAll(sub.WorkDir, 0o755)
+	return mergeResults(res, runInterp(&sub, "C07", regionProfile("jsonquote"), 200, 4000, corrInterp))
 }
